@@ -507,6 +507,11 @@ func (p *Packet) MarshalTo(buf []byte) (n int, err error) {
 	m := copy(buf[n:], p.Payload)
 
 	if p.Header.Padding {
+		// the padding octets may hold stale data when the buffer is reused
+		padding := buf[n+m : n+m+int(p.PaddingSize)]
+		for i := range padding {
+			padding[i] = 0
+		}
 		buf[n+m+int(p.PaddingSize-1)] = p.PaddingSize
 	}
 
